@@ -25,36 +25,34 @@ theorem decoded_of_filters (ext : Ext) (s : Strm) (f : Stage) (fs : List Stage)
   simp only [getPlainContent, decompressedContent, h, List.map]
   exact ⟨trivial, trivial⟩
 
-/-- compress is lossless unless a stale `DecodeParms` with a PNG predictor is present on a Filter-less stream -/
-theorem compress_rt_partial' (ext : Ext) (deflate : Bytes → Bytes)
+/-- compress on a Filter-less stream, then decode: the original content — whatever else the dictionary holds
+(in particular a stale `DecodeParms`, removed since fix 7763e3b). `KeysNodup` is the `IndexMap` invariant. -/
+theorem compress_rt_nofilter (ext : Ext) (deflate : Bytes → Bytes)
     (hfl : ∀ x, ext.inflate (deflate x) = x) (hne : ∀ x, deflate x ≠ [])
-    (s : Strm) (hguard : s.dict.has K_FILTER = true ∨ predictorInactive (decodeParms s.dict)) :
-    getPlainContent ext (compress deflate s) = getPlainContent ext s := by
-  rcases compress_cases deflate s with h | ⟨hnf, _, h⟩
+    (s : Strm) (hnd : s.dict.KeysNodup) (hnf : s.dict.has K_FILTER = false) :
+    getPlainContent ext (compress deflate s) = .ok s.content := by
+  have hget : s.dict.get K_FILTER = none := by
+    simp only [Dict.has] at hnf
+    cases hg : s.dict.get K_FILTER with
+    | none => rfl
+    | some v => rw [hg] at hnf; simp at hnf
+  have hplain : getPlainContent ext s = .ok s.content := by
+    simp [getPlainContent, streamFilters, hget]
+  rcases compress_cases deflate s with h | ⟨_, _, h⟩
+  · rw [h, hplain]
   · rw [h]
-  · have hp : predictorInactive (decodeParms s.dict) := by
-      rcases hguard with hg | hg
-      · rw [hg] at hnf; exact absurd hnf (by simp)
-      · exact hg
-    have hget : s.dict.get K_FILTER = none := by
-      simp only [Dict.has] at hnf
-      cases hg : s.dict.get K_FILTER with
-      | none => rfl
-      | some v => rw [hg] at hnf; simp at hnf
-    have hplain : getPlainContent ext s = .ok s.content := by
-      simp [getPlainContent, streamFilters, hget]
-    rw [h, hplain]
     have n1 : K_LENGTH ≠ K_FILTER := by decide
     have n2 : K_LENGTH ≠ K_DECODEPARMS := by decide
     have n3 : K_FILTER ≠ K_DECODEPARMS := by decide
-    have hf : (setContent { s with dict := s.dict.set K_FILTER (.name F_FLATE) } (deflate s.content)).dict.get K_FILTER
+    have hf : (setContent { s with dict := (s.dict.remove K_DECODEPARMS).set K_FILTER (.name F_FLATE) } (deflate s.content)).dict.get K_FILTER
         = some (.name (Stage.name .flate)) := by
       simp only [setContent]
-      rw [Dict.get_set_other _ _ _ _ n1, Dict.get_set_same]; rfl
-    have hparms : decodeParms (setContent { s with dict := s.dict.set K_FILTER (.name F_FLATE) } (deflate s.content)).dict
-        = decodeParms s.dict := by
+      rw [Dict.get_set_other_c09 _ _ _ _ n1, Dict.get_set_same_c09]; rfl
+    have hparms : decodeParms (setContent { s with dict := (s.dict.remove K_DECODEPARMS).set K_FILTER (.name F_FLATE) } (deflate s.content)).dict
+        = none := by
       simp only [setContent, decodeParms]
-      rw [Dict.get_set_other _ _ _ _ n2, Dict.get_set_other _ _ _ _ n3]
+      rw [Dict.get_set_other_c09 _ _ _ _ n2, Dict.get_set_other_c09 _ _ _ _ n3, Dict.get_remove_same_c09 _ _ hnd]
+      rfl
     have hsf := streamFilters_name _ _ hf
     have := (decoded_of_filters ext _ .flate [] (by simpa using hsf)).2
     rw [this, hparms]
@@ -62,14 +60,32 @@ theorem compress_rt_partial' (ext : Ext) (deflate : Bytes → Bytes)
       cases hd : deflate s.content with
       | nil => exact absurd hd (hne _)
       | cons a b => rfl
-    simp [filterLoop, setContent, Stage.name, applyFilter, ne, hfl, decompressPredictor_inactive _ _ hp, Outcome.bind]
+    simp [filterLoop, setContent, Stage.name, applyFilter, ne, hfl, decompressPredictor, Outcome.bind]
+
+/-- compress never changes what `get_plain_content` returns -/
+theorem compress_rt' (ext : Ext) (deflate : Bytes → Bytes)
+    (hfl : ∀ x, ext.inflate (deflate x) = x) (hne : ∀ x, deflate x ≠ [])
+    (s : Strm) (hnd : s.dict.KeysNodup) :
+    getPlainContent ext (compress deflate s) = getPlainContent ext s := by
+  by_cases hf : s.dict.has K_FILTER = true
+  · rcases compress_cases deflate s with h | ⟨hnf, _, _⟩
+    · rw [h]
+    · rw [hf] at hnf; exact absurd hnf (by simp)
+  · have hnf : s.dict.has K_FILTER = false := by simpa using hf
+    rw [compress_rt_nofilter ext deflate hfl hne s hnd hnf]
+    have hget : s.dict.get K_FILTER = none := by
+      simp only [Dict.has] at hnf
+      cases hg : s.dict.get K_FILTER with
+      | none => rfl
+      | some v => rw [hg] at hnf; simp at hnf
+    simp [getPlainContent, streamFilters, hget]
 
 /-! ### witnesses -/
 
 def wDeflate (x : Bytes) : Bytes := if x = List.replicate 40 9 then [1] else 0 :: x
 def wInflate (y : Bytes) : Bytes := if y = [1] then List.replicate 40 9 else y.tail
 def wExt : Ext := { inflate := wInflate, lzw := fun _ x => x }
-/-- `<< /DecodeParms << /Predictor 12 /Columns 4 >> /Length 40 >>` with 40 bytes 0x09, no Filter -/
+/-- the former F-C09-c witness: `<< /DecodeParms << /Predictor 12 /Columns 4 >> /Length 40 >>`, 40 bytes 0x09, no Filter -/
 def wStale : Strm :=
   { dict := [(K_DECODEPARMS, .dict [(K_PREDICTOR, .int 12), (K_COLUMNS, .int 4)]), (K_LENGTH, .int 40)],
     content := List.replicate 40 9 }
@@ -83,27 +99,13 @@ theorem wInflate_wDeflate (x : Bytes) : wInflate (wDeflate x) = x := by
 theorem wDeflate_ne (x : Bytes) : wDeflate x ≠ [] := by
   unfold wDeflate; split <;> simp
 
-theorem decodeFrame_bad_type : decodeFrame (List.replicate 40 9) 1 4 = .err "invalid PNG filter type" := by
-  have h1 : ¬ (1 * 4 > USIZE_MAX) := by decide
-  have h2 : ¬ (1 * 4 > ISIZE_MAX) := by decide
-  simp only [decodeFrame, h1, h2, if_false]
-  rw [show List.replicate 40 (9 : UInt8) = 9 :: List.replicate 39 9 from rfl, frameLoop.eq_def]
-  have : PngFilter.ofByte 9 = none := by decide
-  simp only [this]
-
-theorem compress_stale_witness :
-    (∀ x, wExt.inflate (wDeflate x) = x) ∧ (∀ x, wDeflate x ≠ []) ∧ wStale.dict.has K_FILTER = false ∧
-    getPlainContent wExt wStale = .ok wStale.content ∧
-    getPlainContent wExt (compress wDeflate wStale) = .err "invalid PNG filter type" := by
-  refine ⟨wInflate_wDeflate, wDeflate_ne, by decide, by rfl, ?_⟩
-  have h : getPlainContent wExt (compress wDeflate wStale)
-      = (decompressPredictor (List.replicate 40 9) (some [(K_PREDICTOR, .int 12), (K_COLUMNS, .int 4)])).bind
-          (filterLoop wExt (some [(K_PREDICTOR, .int 12), (K_COLUMNS, .int 4)]) []) := by rfl
-  have g : predGeom [(K_PREDICTOR, .int 12), (K_COLUMNS, .int 4)] = ⟨12, 4, 1, 8⟩ := by decide
-  have h2 : decompressPredictor (List.replicate 40 9) (some [(K_PREDICTOR, .int 12), (K_COLUMNS, .int 4)])
-      = decodeFrame (List.replicate 40 9) 1 4 := by
-    simp only [decompressPredictor, g]; rfl
-  rw [h, h2, decodeFrame_bad_type]; rfl
+/-- regression of F-C09-c: the former witness stream now survives compress + decode, and its DecodeParms is gone -/
+theorem compress_stale_regression' :
+    (compress wDeflate wStale).dict.get K_DECODEPARMS = none ∧
+    (compress wDeflate wStale).dict.get K_FILTER = some (.name F_FLATE) ∧
+    getPlainContent wExt (compress wDeflate wStale) = .ok wStale.content :=
+  ⟨by rfl, by rfl,
+   compress_rt_nofilter wExt wDeflate wInflate_wDeflate wDeflate_ne wStale (by unfold Dict.KeysNodup; decide) (by decide)⟩
 
 /-- F-C09-b: `Filter [/FlateDecode]`, `DecodeParms [<</Predictor 12 /Columns 2>>]` (array form) vs the dictionary form -/
 def wParms : Dict := [(K_PREDICTOR, .int 12), (K_COLUMNS, .int 2)]
